@@ -169,6 +169,7 @@ structure St where
   negHold  : Nat    := 0        -- Timers.State.NegotiatedHoldTime
   lastRx   : Nat    := 0        -- instant the hold timer was last (re)started
   rib      : Nat    := 0        -- prefixes in the peer's Adj-RIB-In
+  queued   : Bool   := false    -- a completed outgoing connection waits in fsm.outgoingConnCh
   remoteAS : Nat    := 0        -- getASN of fsm.recvOpen: becomes State.PeerAs / decides the peer type
 deriving Repr, DecidableEq, Inhabited
 
@@ -265,12 +266,17 @@ def nNegotiated (grLocal notifLocal peerGR peerN : Bool) : Bool := grLocal && no
 def convertNotification (n : Bool) (code sub : Nat) : Nat × Nat :=
   if n && code == 6 && shouldHardReset sub then (6, 9) else (code, sub)
 
+/-- outgoingConnManager.stop() as fsmHandler.loop calls it on EVERY return to IDLE and when the
+    peer goes away: a completed outgoing connection still waiting in fsm.outgoingConnCh is closed,
+    so that no connection of the old session generation survives the teardown. -/
+def drainOuts (s : St) : List Out := if s.queued then [.close .o s.now] else []
+
 /-- every way back to IDLE: fsmHandler.loop stores the state, idle() starts its timer with the
     current fsm.idleHoldTime; a PeerDown drops the Adj-RIB-In (no graceful restart). -/
 def toIdle (s : St) (idleHold : Nat) : St × List Out :=
   ({ s with st := .idle, idleHold := idleHold, idleT := some (s.now + idleHold),
-            holdT := none, kaT := none, rib := 0, cur := .p },
-   [.trans s.st .idle s.admin s.now])
+            holdT := none, kaT := none, rib := 0, cur := .p, queued := false },
+   drainOuts s ++ [.trans s.st .idle s.admin s.now])
 
 /-- fsm.sendNotification (write, then close) followed by the return to IDLE. -/
 def notifyIdle (s : St) (code sub : Nat) : St × List Out :=
@@ -297,8 +303,9 @@ def onDeleted (s : St) (e : Ev) : St × List Out :=
 
 /-- ctx cancelled by stopNeighbor: every handler returns -1 (dying). -/
 def die (s : St) (outs : List Out) : St × List Out :=
-  ({ s with deleted := true, st := .idle, idleT := none, holdT := none, kaT := none, rib := 0 },
-   outs ++ [.deleted s.now])
+  ({ s with deleted := true, st := .idle, idleT := none, holdT := none, kaT := none, rib := 0,
+            queued := false },
+   outs ++ drainOuts s ++ [.deleted s.now])
 
 /-- fsmHandler.idle (timers are handled by `fireTimer`). -/
 def onIdle (_c : Cfg) (s : St) (e : Ev) : St × List Out :=
@@ -347,6 +354,7 @@ def onOpensent (c : Cfg) (s : St) (e : Ev) : St × List Out :=
 /-- fsmHandler.openconfirm. -/
 def onOpenconfirm (c : Cfg) (s : St) (e : Ev) : St × List Out :=
   match e with
+  | .outgoing _ => ({ s with queued := s.queued || s.cur == .p }, [])  -- nobody reads fsm.outgoingConnCh here: it waits
   | .connect => (s, [.close .x s.now])
   | .keepalive =>
     let s1 := armSession c { s with st := .established } s.negHold
@@ -367,6 +375,7 @@ def touch (s : St) : St :=
 /-- fsmHandler.established + recvMessageloop + handleFSMMessage/handleUpdate. -/
 def onEstablished (c : Cfg) (s : St) (e : Ev) : St × List Out :=
   match e with
+  | .outgoing _ => ({ s with queued := s.queued || s.cur == .p }, [])  -- nobody reads fsm.outgoingConnCh here: it waits
   | .connect => (s, [.close .x s.now])
   | .keepalive => (touch s, [])
   | .update n =>
